@@ -26,6 +26,8 @@ RULE = ("correspondence: corpus + grammar-generated + mutated + targeted program
 TRUSTED = core.COMMON_TRUSTED + ["clingo 5.8.2 grounder/solver as the meaning of programs in the oracle",
                                  "ngo.normalize.inline_arithmetic is applied by the harness before the modelled part of execute"]
 EXTRA = [
+    # b/1 is meant to be declared as input although it has a rule (decl_mix): the instance may add b-facts without d/e-facts
+    "b(X) :- d(X), e(X). a(X) :- b(X), d(X). {c(X)} :- a(X).",
     "{p(X)} :- d(X). q(X) :- d(X), p(X), not p(X).",
     "a(X) :- dom(X), not not b(X). b(X) :- c(X). p(X) :- a(X), c(X). c(X) :- p(X).",
     "b(0,0). b(X,Y) :- dom(X), dom(Y), X<Y. a(X,Y) :- b(X,Y), dom(X), dom(Y). c(X) :- b(X,_), dom(X). n :- #count{X : b(X,Y), dom(Y)} < 1.",
@@ -74,7 +76,7 @@ def run(ctx) -> int:
     flags = semcheck.flags_only("cleanup")
     cases = semprop.oracle_cases(ctx, [flags], "voc", 130 if ctx.quick() else 700, 90 if ctx.quick() else 3000,
                                  origins={"cleanup", "ast", "normalize", "unused"}, n_inst=5,
-                                 extra_programs=EXTRA + extra, n_hand=len(EXTRA))
+                                 extra_programs=EXTRA + extra, n_hand=len(EXTRA), decl_mix=True)
     semprop.run_oracle(ctx, cases, None)
     return core.finish(ctx, LEVEL, TRUSTED,
                        ["the schema's side condition is not derived from the syntactic mappings in Lean (validated by the oracle)",
